@@ -143,6 +143,41 @@ def generate(rng, tier):
                 def sc(q):
                     return q if q == "X" else q[0] + fb(b2f(int(q[1:])) * f)
                 out.append((f"poly {len(full)} " + " ".join(fb(c * f) for c in full) + " " + " ".join(sc(q) for q in qs0), True))
+    # cubics that start above the value, rise first and then dip down to it inside (0,1), with a leading coefficient below 1
+    # (and, as controls, above 1): 'touches' may not conclude 'never decreases' from a wrong bound on the derivative's minimum
+    made = 0
+    tries = 0
+    while made < (300 if thorough else 60) and tries < 100000:
+        tries += 1
+        a = rng.choice([rng.uniform(0.05, 0.95), rng.uniform(0.05, 0.95), rng.uniform(1.0, 40.0)])
+        b = -rng.uniform(0.3, 2.9) * a
+        lo_c, hi_c = b * b * a / 3, b * b / (4 * a)
+        if a >= 1:
+            lo_c, hi_c = 0.0, b * b / (3 * a)
+        if not lo_c < hi_c:
+            continue
+        c = rng.uniform(lo_c, hi_c * 0.98)
+        if 3 * a + 2 * b + c < 0 or c < 0:
+            continue
+        d = rng.choice([2.0, 0.0, -5.0, 100.0])
+        cs = [b2f(f2b(d)), b2f(f2b(c)), b2f(f2b(b)), b2f(f2b(a))]
+        # the dip: the larger root of p'
+        disc = 4 * cs[2] ** 2 - 12 * cs[3] * cs[1]
+        if disc <= 0:
+            continue
+        u = (-2 * cs[2] + math.sqrt(disc)) / (6 * cs[3])
+        if not 0.15 < u < 0.9:
+            continue
+        pmin = pe(cs, u)
+        span = max(abs(pe(cs, 1.0) - pmin), abs(cs[0] - pmin), 1e-3)
+        if not pmin < cs[0]:
+            continue
+        made += 1
+        ys = [pmin + 0.2 * (cs[0] - pmin), pmin + 0.02 * span, pmin - 0.05 * span]
+        qs = []
+        for y in ys:
+            qs += ["T" + fb(b2f(f2b(y))), "S" + fb(b2f(f2b(y)))]
+        out.append((f"poly 4 " + " ".join(fb(x) for x in cs) + " " + " ".join(qs), True))
     # integer polynomials with exactly representable (multiple) roots
     small = [-2.0, -1.0, -0.5, 0.0, 0.25, 0.5, 1.0, 2.0, 3.0]
     for _ in range(300 if thorough else 60):
